@@ -9,6 +9,7 @@ import time
 
 VERIF = os.path.dirname(os.path.dirname(os.path.abspath(__file__)))
 KNOWN_FILE = os.path.join(VERIF, "known_findings.txt")
+EVDIR = os.environ.get("VERIF_EVIDENCE_DIR") or os.path.join(VERIF, "evidence")
 
 
 def rel(path, repo):
@@ -131,7 +132,7 @@ class Check:
                 out_lines.append("KNOWN-FINDING: property=%s key=%s :: %s" % (pid, v.key, known[v.key]))
             else:
                 unlisted.append(v)
-        vdir = os.path.join(VERIF, "evidence", "%s.violations" % pid)
+        vdir = os.path.join(EVDIR, "%s.violations" % pid)
         if os.path.isdir(vdir):
             for f in os.listdir(vdir):
                 os.unlink(os.path.join(vdir, f))
@@ -201,8 +202,8 @@ class Check:
             "violations": len(unlisted) + len(self.failclosed),
         }
         ev["coverage"].update(self.extra)
-        os.makedirs(os.path.join(VERIF, "evidence"), exist_ok=True)
-        json.dump(ev, open(os.path.join(VERIF, "evidence", "%s.json" % pid), "w"), indent=1)
+        os.makedirs(EVDIR, exist_ok=True)
+        json.dump(ev, open(os.path.join(EVDIR, "%s.json" % pid), "w"), indent=1)
         print("%s: %d rule(s), %d instances, %d discharged, %d known finding(s), %d unlisted violation(s), %d fail-closed"
               % (pid, len(self.rules), obligations, discharged, len(listed), len(unlisted), len(self.failclosed)))
         for rid, r in self.rules.items():
